@@ -10,19 +10,19 @@ From SKN Require Import Base.Util Base.QMat Model.Operators Proofs.OperatorsProo
 From Coq Require Import QArith Qabs Permutation.
 
 (* ------------------------------------------------------------------------------------------- *)
-(** * All operators: operator.dot(x) and the 2-D branch of _matvec equal the dense matrix times x / X,
-      for every well-formed expression that avoids the defective sites ([op_sound_site]:
-      no transposed Normalizer, no transposed Laplacian of a non-symmetric adjacency,
-      no non-square factor in CoNeighbor.left/right_sparse_dot, no CoNeighbor negation / scaling while the two
-      factors share their data buffer, i.e. directly on CoNeighbor(normalized=False)). *)
+(** * All operators: operator.dot(x) and the 2-D branch of _matvec equal the dense matrix times x / X, for every
+      well-formed expression — transposed or not, after any chain of the algebraic operations.  (The model follows the
+      code after the fix commits 5ac8181a, 042fc436, ca03879a, 1496c670, 2a194d08; the defects they repaired are kept
+      as [legacy_*_refuted] below.  Operand mutation by CoNeighbor's operations — known finding D26 — is aliasing,
+      outside a pure model: each theorem speaks about the value an operation returns.) *)
 Theorem operator_denotes (sqrtf : Q -> Q) (o : op_expr) (x : list Q) :
-  Proper (Qeq ==> Qeq) sqrtf -> op_wf o -> op_sound_site o -> length x = snd (op_shape o) ->
+  Proper (Qeq ==> Qeq) sqrtf -> op_wf o -> length x = snd (op_shape o) ->
   exists y, op_apply sqrtf o x = Ok y /\ y =v mat_vec (op_dense sqrtf o) x.
 Proof. exact (OperatorsProofs.operator_denotes sqrtf o x). Qed.
 Print Assumptions operator_denotes.
 
 Theorem operator_matmat_denotes (sqrtf : Q -> Q) (k : nat) (o : op_expr) (X : list (list Q)) :
-  Proper (Qeq ==> Qeq) sqrtf -> op_wf o -> op_sound_site o -> wf_mat (snd (op_shape o)) k X ->
+  Proper (Qeq ==> Qeq) sqrtf -> op_wf o -> wf_mat (snd (op_shape o)) k X ->
   op_apply_mat sqrtf k o X =m mat_mul k (op_dense sqrtf o) X.
 Proof. exact (OperatorsProofs.operator_matmat_denotes sqrtf k o X). Qed.
 Print Assumptions operator_matmat_denotes.
@@ -112,12 +112,26 @@ Theorem normalizer_matmat_denotes k a reg X : swf a -> (0 < s_ncol a)%nat -> (0 
   nz_matmat k (mk_normalizer a reg) X =m mat_mul k (normalizer_dense a reg) X.
 Proof. exact (OperatorsProofs.normalizer_matmat_denotes k a reg X). Qed.
 Print Assumptions normalizer_matmat_denotes.
-(** D8: _transpose returns self; the positive theorems above and [operator_denotes] exclude the transposed Normalizer *)
-Theorem normalizer_transpose_refuted :
+(** operator.T (SciPy's transposed wrapper around _rmatvec) is the transposed dense matrix *)
+Theorem normalizer_transpose_denotes a reg x : swf a -> (0 < s_ncol a)%nat -> (0 <= reg)%Q -> length x = s_nrow a ->
+  nz_rmatvec (mk_normalizer a reg) x =v mat_vec (transpose_n (s_ncol a) (normalizer_dense a reg)) x.
+Proof. exact (normalizer_rmatvec_denotes a reg x). Qed.
+Print Assumptions normalizer_transpose_denotes.
+Theorem normalizer_transpose_matmat_denotes k a reg X : swf a -> (0 < s_ncol a)%nat -> (0 <= reg)%Q -> wf_mat (s_nrow a) k X ->
+  nz_rmatmat k (mk_normalizer a reg) X =m mat_mul k (transpose_n (s_ncol a) (normalizer_dense a reg)) X.
+Proof. exact (normalizer_rmatmat_denotes k a reg X). Qed.
+Print Assumptions normalizer_transpose_matmat_denotes.
+(** any number of transpositions: shape checks pass, result = dense . x *)
+Theorem normalizer_expr_denotes e x : ne_wf e -> length x = snd (ne_shape e) ->
+  exists y, lo_dot (ne_shape e) (ne_matvec e) x = Ok y /\ y =v mat_vec (ne_dense e) x.
+Proof. exact (normalizer_dot_denotes e x). Qed.
+Print Assumptions normalizer_expr_denotes.
+(** legacy D8 (repaired by 042fc436): _transpose returned self *)
+Theorem legacy_normalizer_transpose_refuted :
   exists a x, swf a /\ (0 < s_ncol a)%nat /\ length x = s_nrow a /\
-    ~ (nz_matvec (nz_transpose (mk_normalizer a 0)) x =v mat_vec (transpose_n (s_ncol a) (normalizer_dense a 0)) x).
-Proof. exact OperatorsProofs.normalizer_transpose_refuted. Qed.
-Print Assumptions normalizer_transpose_refuted.
+    ~ (nz_matvec (legacy_nz_transpose (mk_normalizer a 0)) x =v mat_vec (transpose_n (s_ncol a) (normalizer_dense a 0)) x).
+Proof. exact OperatorsProofs.legacy_normalizer_transpose_refuted. Qed.
+Print Assumptions legacy_normalizer_transpose_refuted.
 
 (* ------------------------------------------------------------------------------------------- *)
 (** * Laplacian: L = diag(R 1) - R for the regularised adjacency R = A + reg/n 11^T; normalised: N L N with
@@ -132,17 +146,26 @@ Theorem laplacian_matmat_denotes sqrtf k a reg norm X :
   lp_matmat k (mk_laplacian sqrtf a reg norm) X =m mat_mul k (laplacian_dense sqrtf a reg norm) X.
 Proof. exact (OperatorsProofs.laplacian_matmat_denotes sqrtf k a reg norm X). Qed.
 Print Assumptions laplacian_matmat_denotes.
-(** _transpose returns self: right exactly when the adjacency is symmetric *)
-Theorem laplacian_transpose_denotes sqrtf a reg norm : s_nrow a = s_ncol a -> msymmetric (s_nrow a) (dense a) ->
-  transpose_n (s_nrow a) (laplacian_dense sqrtf a reg norm) =m laplacian_dense sqrtf a reg norm.
-Proof. exact (laplacian_transpose_symmetric sqrtf a reg norm). Qed.
+(** _transpose (a copy with the sparse part transposed) is the transposed dense matrix, for directed graphs too *)
+Theorem laplacian_transpose_denotes sqrtf a reg norm x :
+  Proper (Qeq ==> Qeq) sqrtf -> swf a -> s_nrow a = s_ncol a -> (0 < s_nrow a)%nat -> (0 <= reg)%Q -> length x = s_nrow a ->
+  lp_matvec (lp_transpose (mk_laplacian sqrtf a reg norm)) x
+  =v mat_vec (transpose_n (s_nrow a) (laplacian_dense sqrtf a reg norm)) x.
+Proof. exact (laplacian_transpose_matvec_denotes sqrtf a reg norm x). Qed.
 Print Assumptions laplacian_transpose_denotes.
-Theorem laplacian_transpose_refuted :
+(** any chain of transpositions / astype *)
+Theorem laplacian_expr_denotes sqrtf e x : Proper (Qeq ==> Qeq) sqrtf -> le_wf e -> length x = le_n e ->
+  exists y, lo_dot (lp_n (lp_eval sqrtf e), lp_n (lp_eval sqrtf e)) (lp_matvec (lp_eval sqrtf e)) x = Ok y /\
+            y =v mat_vec (le_dense sqrtf e) x.
+Proof. exact (laplacian_dot_denotes sqrtf e x). Qed.
+Print Assumptions laplacian_expr_denotes.
+(** legacy (repaired by ca03879a): _transpose returned self, wrong for a directed graph *)
+Theorem legacy_laplacian_transpose_refuted :
   exists a x, swf a /\ s_nrow a = s_ncol a /\ length x = s_nrow a /\
-    ~ (lp_matvec (lp_transpose (mk_laplacian (fun q => q) a 0 false)) x
+    ~ (lp_matvec (legacy_lp_transpose (mk_laplacian (fun q => q) a 0 false)) x
        =v mat_vec (transpose_n (s_nrow a) (laplacian_dense (fun q => q) a 0 false)) x).
-Proof. exact OperatorsProofs.laplacian_transpose_refuted. Qed.
-Print Assumptions laplacian_transpose_refuted.
+Proof. exact OperatorsProofs.legacy_laplacian_transpose_refuted. Qed.
+Print Assumptions legacy_laplacian_transpose_refuted.
 
 (* ------------------------------------------------------------------------------------------- *)
 (** * CoNeighbor: A F^+ A^T *)
@@ -153,12 +176,10 @@ Print Assumptions coneighbor_denotes.
 Theorem coneighbor_matvec_denotes v x : cn_wfv v -> length x = cn_ncol v -> cn_matvec v x =v mat_vec (cn_dense v) x.
 Proof. exact (OperatorsProofs.coneighbor_matvec_denotes v x). Qed.
 Print Assumptions coneighbor_matvec_denotes.
-(** negation / scaling are right when the two factors do not share their data buffer ([cn_shared v = false]:
-    normalized=True, or one factor already replaced by a product / a transposition) *)
-Theorem coneighbor_neg_denotes v r c D : cn_shared v = false -> cn_is v r c D -> cn_is (cn_neg v) r c (mneg D).
+Theorem coneighbor_neg_denotes v r c D : cn_is v r c D -> cn_is (cn_neg v) r c (mneg D).
 Proof. exact (cn_neg_is v r c D). Qed.
 Print Assumptions coneighbor_neg_denotes.
-Theorem coneighbor_mul_denotes q v r c D : cn_shared v = false -> cn_is v r c D -> cn_is (cn_mul q v) r c (mscale q D).
+Theorem coneighbor_mul_denotes q v r c D : cn_is v r c D -> cn_is (cn_mul q v) r c (mscale q D).
 Proof. exact (cn_mul_is q v r c D). Qed.
 Print Assumptions coneighbor_mul_denotes.
 Theorem coneighbor_left_sparse_dot_denotes M v r c D :
@@ -172,23 +193,25 @@ Print Assumptions coneighbor_right_sparse_dot_denotes.
 Theorem coneighbor_transpose_denotes v r c D : cn_is v r c D -> cn_is (cn_transpose v) c r (transpose_n c D).
 Proof. exact (cn_transpose_is v r c D). Qed.
 Print Assumptions coneighbor_transpose_denotes.
-(** operator.dot(x) passes LinearOperator's shape checks and equals dense . x when every factor is square and no
-    scaling hits shared factors *)
-Theorem coneighbor_dot_denotes e x : ce_wf e -> ce_square_factors e -> ce_unshared_scaling e -> length x = snd (ce_shape e) ->
+(** operator.dot(x) passes LinearOperator's shape checks (the recorded shape follows the factors) and equals dense . x,
+    for square and non-square factors, normalized or not *)
+Theorem coneighbor_dot_denotes e x : ce_wf e -> length x = snd (ce_shape e) ->
   exists y, cn_dot (cn_eval e) x = Ok y /\ y =v mat_vec (ce_dense e) x.
 Proof. exact (OperatorsProofs.coneighbor_dot_denotes e x). Qed.
 Print Assumptions coneighbor_dot_denotes.
-(** D26: the recorded shape is never updated: after a 2 x 3 left factor the well-shaped product raises *)
-Theorem coneighbor_sparse_dot_shape_refuted :
-  exists e x, ce_wf e /\ length x = snd (ce_shape e) /\ cn_dot (cn_eval e) x = Err.
-Proof. exact OperatorsProofs.coneighbor_sparse_dot_shape_refuted. Qed.
-Print Assumptions coneighbor_sparse_dot_shape_refuted.
-(** with normalized=False, backward *= c also scales forward (adjacency.T is a view on the same buffer): -op = op *)
-Theorem coneighbor_shared_scaling_refuted :
+(** legacy D26 (repaired by 2a194d08): the recorded shape was never updated: after a 2 x 3 left factor the product raised *)
+Theorem legacy_coneighbor_sparse_dot_shape_refuted :
+  exists M a x, swf M /\ swf a /\ snonneg a /\ s_ncol M = s_nrow a /\ length x = s_nrow a /\
+    legacy_cn_dot (legacy_cn_left M (legacy_mk_coneighbor a true)) x = Err.
+Proof. exact OperatorsProofs.legacy_coneighbor_sparse_dot_shape_refuted. Qed.
+Print Assumptions legacy_coneighbor_sparse_dot_shape_refuted.
+(** legacy (repaired by 1496c670): with normalized=False, backward *= c also scaled forward (a view on the same buffer): -op = op *)
+Theorem legacy_coneighbor_shared_scaling_refuted :
   exists a x y, swf a /\ snonneg a /\ length x = s_nrow a /\
-    cn_dot (cn_eval (CNeg (CBase a false))) x = Ok y /\ ~ (y =v mat_vec (ce_dense (CNeg (CBase a false))) x).
-Proof. exact OperatorsProofs.coneighbor_shared_scaling_refuted. Qed.
-Print Assumptions coneighbor_shared_scaling_refuted.
+    legacy_cn_dot (legacy_cn_mul (-(1)) (legacy_mk_coneighbor a false)) x = Ok y /\
+    ~ (y =v mat_vec (ce_dense (CNeg (CBase a false))) x).
+Proof. exact OperatorsProofs.legacy_coneighbor_shared_scaling_refuted. Qed.
+Print Assumptions legacy_coneighbor_shared_scaling_refuted.
 
 (* ------------------------------------------------------------------------------------------- *)
 (** * Polynome *)
@@ -285,7 +308,7 @@ Theorem tfidf_def lnf c : swf c ->
 Proof. exact (OperatorsProofs.tfidf_def lnf c). Qed.
 Print Assumptions tfidf_def.
 (** top_k returns min(k, n) distinct indices whose scores are >= every non-returned score (sorted decreasingly if
-    asked), for every answer of argsort / argpartition meeting their contracts, whenever it returns at all *)
+    asked), for every answer of argsort / argpartition meeting their contracts *)
 Theorem top_k_def (argsort : list Q -> list nat) (argpartition : list Q -> nat -> list nat) scores k sort idx :
   (forall l, Permutation (argsort l) (seq 0 (length l))) ->
   (forall l a b, (a <= b)%nat -> (b < length l)%nat ->
@@ -300,33 +323,39 @@ Theorem top_k_def (argsort : list Q -> list nat) (argpartition : list Q -> nat -
                   (nthq scores (nth b idx 0%nat) <= nthq scores (nth a idx 0%nat))%Q).
 Proof. exact (OperatorsProofs.top_k_def argsort argpartition scores k sort idx). Qed.
 Print Assumptions top_k_def.
-(** it returns whenever sort = true or k < len(scores) ... *)
-Theorem top_k_returns argsort argpartition scores k sort :
-  sort = true \/ (k < length scores)%nat -> exists idx, top_k argsort argpartition scores k sort = Ok idx.
+(** it always returns *)
+Theorem top_k_returns argsort argpartition scores k sort : exists idx, top_k argsort argpartition scores k sort = Ok idx.
 Proof. exact (OperatorsProofs.top_k_returns argsort argpartition scores k sort). Qed.
 Print Assumptions top_k_returns.
-(** ... D11: and raises for sort = False, k >= len(scores) *)
-Theorem top_k_unsorted_refuted :
-  exists scores k, (length scores <= k)%nat /\ forall argsort argpartition, top_k argsort argpartition scores k false = Err.
-Proof. exact OperatorsProofs.top_k_unsorted_refuted. Qed.
-Print Assumptions top_k_unsorted_refuted.
+(** legacy D11 (repaired by 5ac8181a): it raised for sort = False, k >= len(scores) *)
+Theorem legacy_top_k_unsorted_refuted :
+  exists scores k, (length scores <= k)%nat /\ forall argsort argpartition, legacy_top_k argsort argpartition scores k false = Err.
+Proof. exact OperatorsProofs.legacy_top_k_unsorted_refuted. Qed.
+Print Assumptions legacy_top_k_unsorted_refuted.
 
 (* ------------------------------------------------------------------------------------------- *)
 (** * Non-vacuity: a concrete expression meets the hypotheses and the model computes on it *)
 Example c15_nonvacuous :
   let a := {| s_ncol := 3; s_rows := [[(1%nat, 1%Q); (2%nat, 2%Q)]; []; [(0%nat, 1 # 2)]] |} in
   let o := OSlr (ST (SAdd (SReg a 1) (SMul 2 (SBase a [([1; 0; 1], [0; 1; 1])%Q])))) in
-  op_wf o /\ op_sound_site o /\
+  op_wf o /\
   exists y, op_apply (fun q => q) o [1; 2; 3]%Q = Ok y /\ y =v [13 # 2; 13; 16]%Q.
 Proof.
-  split; [|split; [exact I | eexists; split; [vm_compute; reflexivity | repeat constructor]]].
+  split; [|eexists; split; [vm_compute; reflexivity | repeat constructor]].
   simpl. repeat split; repeat constructor.
 Qed.
-Example c15_nonvacuous_coneighbor :
+(** a non-square left factor, a scaling of CoNeighbor(normalized=False), transpositions of Normalizer and of a
+    directed Laplacian: the sites the legacy code got wrong *)
+Example c15_nonvacuous_repaired_sites :
   let a := {| s_ncol := 2; s_rows := [[(0%nat, 1%Q)]; [(0%nat, 1%Q); (1%nat, 1%Q)]] |} in
-  let o := OCn (CT (CNeg (CBase a true))) in
-  op_wf o /\ op_sound_site o /\ exists y, op_apply (fun q => q) o [2; 4]%Q = Ok y.
+  let M := {| s_ncol := 2; s_rows := [[(0%nat, 1%Q)]; [(1%nat, 2%Q)]; [(0%nat, 1%Q); (1%nat, 1%Q)]] |} in
+  let d := {| s_ncol := 2; s_rows := [[(1%nat, 1%Q)]; []] |} in
+  op_wf (OCn (CT (CLeft M (CNeg (CBase a false))))) /\ op_wf (ONorm (NT (NBase M 1))) /\ op_wf (OLap (LT (LBase d 0 false))) /\
+  (exists y, op_apply (fun q => q) (OCn (CT (CLeft M (CNeg (CBase a false))))) [1; 2; 3]%Q = Ok y) /\
+  (exists y, op_apply (fun q => q) (ONorm (NT (NBase M 1))) [1; 2; 3]%Q = Ok y) /\
+  (exists y, op_apply (fun q => q) (OLap (LT (LBase d 0 false))) [1; 2]%Q = Ok y /\ y =v [1; -(1)]%Q).
 Proof.
-  split; [|split; [simpl; repeat split | eexists; vm_compute; reflexivity]].
-  simpl. repeat split; repeat constructor; unfold Qle; simpl; lia.
+  repeat split; try (simpl; repeat split; repeat constructor; unfold Qle; simpl; lia);
+    try (eexists; vm_compute; reflexivity).
+  eexists; split; [vm_compute; reflexivity | repeat constructor].
 Qed.
